@@ -14,10 +14,9 @@
    McKay-Piperno argument, Canon/SearchInvP.v .. SearchMax.v): the leaf kept has the greatest
    certificate among ALL the leaves of the unpruned tree, hence the canonical graph computed by the
    model is the same for every relabelling of the input (vertex classes relabelled with it).
-   Panic-freedom is FALSE for admissible vertex classes: C01_search_panic_witness exhibits a simple graph on
-   12 vertices with two classes on which the model returns Panic, exactly where the code panics
-   (currentBest[:len(op.value)] in expandValue; genuine defect of the code).  The theorems speak about the
-   runs that return Ok. *)
+   The model follows the code after commit a4bdb37 (a cut-off in expandValue sets singletonPrefixLength to the
+   position where it lost, plus one); before it, model and code panicked on some graphs with vertex classes
+   (C01_search_former_panics_return).  Panic-freedom: see the end of this file. *)
 From Coq Require Import List Arith ZArith Permutation.
 From Mamba Require Import Canon.Perm Canon.Iso Canon.Model Canon.Tree Canon.SearchModel Canon.SearchCells
   Canon.SearchTarget Canon.SearchOrder Canon.SearchEquiv Canon.SearchInit Canon.SearchProofs Canon.SearchMax Canon.SearchInvar.
@@ -149,15 +148,14 @@ Example C01_search_nonvacuous :
   (exists h, search_canon_graph 100 (relabel c6 [3;0;5;1;4;2]) None = Ok h /\ search_canon_graph 100 c6 None = Ok h).
 Proof. vm_compute. repeat split. eexists. split; reflexivity. Qed.
 
-(* Panic-freedom does NOT hold: on this simple graph on 12 vertices (graph6 KOD[fB~~qOCO, 30 edges) with the
-   vertex classes {0..9} {10,11} the model returns Panic (with fuel 200, hence with every larger fuel), and so does the code
-   (graph.CanonicalIsomorphFull: "slice bounds out of range [:32] with capacity 30" in expandValue,
-   currentBest[:len(op.value)]): after a cut-off inside splitBin op.value keeps the entries of the aborted
-   expansion and grows with every further sibling (notes/CANON_SEARCH.md).  Without vertex classes the same
-   graph is canonised normally.  A statement C01_search_total (canon_search never returns Panic) is therefore
-   false for admissible vertex classes; the theorems above speak about the runs that return Ok. *)
-Example C01_search_panic_witness :
-  let gw : graph :=
+(* The former panic (repaired in the code by commit a4bdb37 and in the model with it): before that commit a
+   cut-off inside splitBin left singletonPrefixLength stale, op.value kept the entries of the aborted expansion
+   and grew with every further sibling until currentBest[:len(op.value)] went beyond its capacity; on these
+   three inputs (graph6 KOD[fB~~qOCO with classes 0..9|10,11; K`WkCf~~ogGO with 0..7|8,9|10,11;
+   LaGQO]CgN~~}?g with 0..11|12) model and code panicked.  They now return; the three inputs are the first
+   cases of the corpus of the stream `search`. *)
+Example C01_search_former_panics_return :
+  let g1 : graph :=
     [[false;false;true;false;false;false;true;true;true;true;false;false];
      [false;false;false;false;false;true;false;true;true;true;true;false];
      [true;false;false;false;false;false;false;true;true;true;false;true];
@@ -170,12 +168,38 @@ Example C01_search_panic_witness :
      [true;true;true;true;true;true;true;true;false;false;false;false];
      [false;true;false;false;true;false;false;false;false;false;false;false];
      [false;false;true;false;false;false;true;false;false;false;false;false]] in
-  simpleb gw = true /\ num_edges gw = 30 /\
-  cls_ok (length gw) (Some [[0;1;2;3;4;5;6;7;8;9];[10;11]]) /\
-  canon_search 200 gw (Some [[0;1;2;3;4;5;6;7;8;9];[10;11]]) = Panic /\
-  (exists r, canon_search 200 gw None = Ok r).
+  let g2 : graph :=
+    [[false;true;false;false;false;false;true;true;true;true;false;false];
+     [true;false;false;false;true;false;false;false;true;true;false;true];
+     [false;false;false;true;true;true;false;false;true;true;false;false];
+     [false;false;true;false;false;false;false;true;true;true;true;false];
+     [false;true;true;false;false;true;false;false;true;true;false;false];
+     [false;false;true;false;true;false;false;false;true;true;true;false];
+     [true;false;false;false;false;false;false;true;true;true;false;true];
+     [true;false;false;true;false;false;true;false;true;true;false;false];
+     [true;true;true;true;true;true;true;true;false;false;false;false];
+     [true;true;true;true;true;true;true;true;false;false;false;false];
+     [false;false;false;true;false;true;false;false;false;false;false;false];
+     [false;true;false;false;false;false;true;false;false;false;false;false]] in
+  let g3 : graph :=
+    [[false;true;false;false;false;false;false;false;true;true;true;true;false];
+     [true;false;false;true;false;false;true;false;false;false;true;true;false];
+     [false;false;false;false;true;false;false;false;false;true;true;true;false];
+     [false;true;false;false;false;true;false;false;false;false;true;true;false];
+     [false;false;true;false;false;false;true;true;false;false;true;true;false];
+     [false;false;false;true;false;false;false;true;true;false;true;true;false];
+     [false;true;false;false;true;false;false;true;false;false;true;true;true];
+     [false;false;false;false;true;true;true;false;false;false;true;true;false];
+     [true;false;false;false;false;true;false;false;false;true;true;true;true];
+     [true;false;true;false;false;false;false;false;true;false;true;true;false];
+     [true;true;true;true;true;true;true;true;true;true;false;false;false];
+     [true;true;true;true;true;true;true;true;true;true;false;false;false];
+     [false;false;false;false;false;false;true;false;true;false;false;false;false]] in
+  simpleb g1 = true /\ simpleb g2 = true /\ simpleb g3 = true /\
+  (exists p o gs, canon_search 200 g1 (Some [[0;1;2;3;4;5;6;7;8;9];[10;11]]) = Ok (p, o, gs) /\ is_perm 12 p = true) /\
+  (exists p o gs, canon_search 200 g2 (Some [[0;1;2;3;4;5;6;7];[8;9];[10;11]]) = Ok (p, o, gs) /\ is_perm 12 p = true) /\
+  (exists p o gs, canon_search 200 g3 (Some [[0;1;2;3;4;5;6;7;8;9;10;11];[12]]) = Ok (p, o, gs) /\ is_perm 13 p = true).
 Proof.
-  cbv zeta. split; [vm_compute; reflexivity|]. split; [vm_compute; reflexivity|]. split.
-  - split; [vm_compute; apply Permutation_refl|repeat constructor; discriminate].
-  - split; [vm_compute; reflexivity|]. vm_compute. eexists. reflexivity.
+  cbv zeta. split; [vm_compute; reflexivity|]. split; [vm_compute; reflexivity|]. split; [vm_compute; reflexivity|].
+  split; [|split]; vm_compute; do 3 eexists; split; reflexivity.
 Qed.
